@@ -193,6 +193,9 @@ func checkC15(c *Ctx, r *Report) {
 	} else {
 		r.OK("FWD-FIELD", "scope", "", fmt.Sprintf("%d field-to-field copies between different struct types in avc, hevc, mp4: none takes a same-named sibling's value", pairs))
 	}
+	// only active when the table is a package-level variable (it is a local literal today; G4/G8 cover that form)
+	ruleTableReach(c, r, map[string]bool{"avc.aspectRatioTable": true})
+	requireFixture(r, "T-REACH", "tightLookup", func(fc *Ctx, s *Report) { ruleTableReach(fc, s, map[string]bool{"mp4.AC3SampleRates": true}) })
 	if n := ruleSignedMod(c, r, func(f *ssa.Function) bool {
 		return strings.HasPrefix(SSAFuncName(f), "avc.") || strings.HasPrefix(SSAFuncName(f), "hevc.")
 	}); n < 1 {
@@ -205,8 +208,13 @@ func checkC19(c *Ctx, r *Report) {
 	r.Explanation = "Narrow clauses: in InitSegment.AddEmptyTrack the track id passed to CreateEmptyTrak and to CreateTrex is the same definition and depends on the number of existing tracks; " +
 		"mvhd.NextTrackID is stored on every path (unconditionally) from that id; the trak and the trex are both attached on every path; " +
 		"MdhdBox.SetLanguage overwrites (does not combine with the old value); the SetAACDescriptor arm that sets parametric stereo also sets SBR and the extension frequency; (FWD-SWAP) nowhere in the repository are two same-typed parameters passed crosswise to a callee whose parameters have the same two names; (FWD) when a function of the init-segment API forwards to a callee that has a parameter of the same name and type as one of its own parameters, the argument in that position depends on that parameter (no swapped / substituted flags); " +
-		"(L-APPENDALIAS) MoovBox.AddChild and every other function of package mp4 that appends to a truncated slice x[:k] reads no tail x[j:] of the old slice afterwards (a trak inserted after the last trak must not overwrite the box that followed it); (T-REACH) every guarded lookup into the AC-3 specification tables (sample rates, bit rates, channel modes: used by SetAC3Descriptor/SetEC3Descriptor and the dac3/dec3 boxes) admits every index below the table length: no dominating test is tighter than index < len(table); (O-ERR) errors from the descriptor builders are looked at on every path. Does not decide encode/decode equality of the built tree or golden-file equality."
+		"(L-COPYMUT) the descriptor setters (and the rest of mp4/avc/hevc) do not call a mutating pointer-receiver method on a local copy of a field (rec := box.Rec; rec.Add(…)): the parameter sets handed to SetHEVCDescriptor must reach the box; (L-APPENDALIAS) MoovBox.AddChild and every other function of package mp4 that appends to a truncated slice x[:k] reads no tail x[j:] of the old slice afterwards (a trak inserted after the last trak must not overwrite the box that followed it); (T-REACH) every guarded lookup into the AC-3 specification tables (sample rates, bit rates, channel modes: used by SetAC3Descriptor/SetEC3Descriptor and the dac3/dec3 boxes) admits every index below the table length: no dominating test is tighter than index < len(table); (O-ERR) errors from the descriptor builders are looked at on every path. Does not decide encode/decode equality of the built tree or golden-file equality."
 	ruleSetterOverwrites(c, r)
+	ruleCopyMutated(c, r, func(f *ssa.Function) bool {
+		return strings.HasPrefix(SSAFuncName(f), "mp4.") || strings.HasPrefix(SSAFuncName(f), "hevc.") || strings.HasPrefix(SSAFuncName(f), "avc.")
+	})
+	r.OK("L-COPYMUT", "scope", "", "no pointer-receiver method that stores through its receiver is called on a local copy of a field or element that is not looked at afterwards (expected count zero; fixture-backed)")
+	requireFixture(r, "L-COPYMUT", "copyMutated", func(fc *Ctx, s *Report) { ruleCopyMutated(fc, s, nil) })
 	if n := ruleAppendAlias(c, r, func(f *ssa.Function) bool { return strings.HasPrefix(SSAFuncName(f), "mp4.") }); n < 5 {
 		r.Undecided("L-APPENDALIAS", "scope", "", fmt.Sprintf("only %d appends to a truncated slice found in package mp4", n))
 	}
